@@ -156,12 +156,10 @@ func runC19(p *Prog, r *Report, tier string) {
 		c.requireCut("G-cut", "returns-only-when-found", g, c.successReturns())
 		c.requireFailArm("G-fail", "returns-only-when-found", g, false)
 		n := 0
-		for _, ret := range allReturns(c.fn) {
-			if p.exitKind(c.x, ret) == "error" {
-				continue
-			}
+		for _, sr := range c.successResults() {
+			ret := sr.ret
 			n++
-			c.checkLit("T-eq", "response", c.x.Of(ret.Results[0], ret), s.resp, map[string]string{s.field: call + "#0"}, p.instrPos(ret))
+			c.checkLit("T-eq", "response", sr.vals[0], s.resp, map[string]string{s.field: call + "#0"}, p.instrPos(ret))
 		}
 		r.check(n == 1, "T-eq", "T-eq/query."+s.q+"/returns", c.pos(), "one success return", fmt.Sprintf("%d success returns", n))
 		// read-only
@@ -201,10 +199,9 @@ func runC19(p *Prog, r *Report, tier string) {
 		g := []Atom{A("k.GetUsedNonce(ctx," + n + ")")}
 		qc.requireCut("G-cut", "returns-only-when-found", g, qc.successReturns())
 		qc.requireFailArm("G-fail", "returns-only-when-found", g, false)
-		for _, ret := range allReturns(qc.fn) {
-			if p.exitKind(qc.x, ret) != "error" {
-				qc.checkLit("T-eq", "response", qc.x.Of(ret.Results[0], ret), "types.QueryGetUsedNonceResponse", map[string]string{"Nonce": n}, p.instrPos(ret))
-			}
+		for _, sr := range qc.successResults() {
+			ret := sr.ret
+			qc.checkLit("T-eq", "response", sr.vals[0], "types.QueryGetUsedNonceResponse", map[string]string{"Nonce": n}, p.instrPos(ret))
 		}
 	}
 	// ---- list queries
@@ -245,11 +242,9 @@ func runC19(p *Prog, r *Report, tier string) {
 		g := []Atom{A("(nil == PAGE#1)")}
 		c.requireCut("G-cut", "paginate-ok", g, c.successReturns())
 		c.requireFailArm("G-fail", "paginate-ok", g, false)
-		for _, ret := range allReturns(fn) {
-			if p.exitKind(c.x, ret) == "error" {
-				continue
-			}
-			_, fields, ok := c.litFields(c.x.Of(ret.Results[0], ret))
+		for _, sr := range c.successResults() {
+			ret := sr.ret
+			_, fields, ok := c.litFields(sr.vals[0])
 			if !ok {
 				r.undecided("T-eq", "T-eq/query."+l.q+"/response", p.instrPos(ret), "response is not a literal")
 				continue
@@ -305,23 +300,19 @@ func runC19(p *Prog, r *Report, tier string) {
 		if c == nil {
 			continue
 		}
-		for _, ret := range allReturns(c.fn) {
-			if p.exitKind(c.x, ret) == "error" {
-				continue
-			}
+		for _, sr := range c.successResults() {
+			ret := sr.ret
 			want := map[string]string{}
 			if s.val != "" {
 				want[s.field] = s.val
 			}
-			c.checkLit("T-eq", "response", c.x.Of(ret.Results[0], ret), s.resp, want, p.instrPos(ret))
+			c.checkLit("T-eq", "response", sr.vals[0], s.resp, want, p.instrPos(ret))
 		}
 	}
 	if c := p.fc(r, p.Func("keeper.Keeper.Roles"), "query.Roles", nil); c != nil {
-		for _, ret := range allReturns(c.fn) {
-			if p.exitKind(c.x, ret) == "error" {
-				continue
-			}
-			c.checkLit("T-eq", "response", c.x.Of(ret.Results[0], ret), "types.QueryRolesResponse", map[string]string{
+		for _, sr := range c.successResults() {
+			ret := sr.ret
+			c.checkLit("T-eq", "response", sr.vals[0], "types.QueryRolesResponse", map[string]string{
 				"Owner": "k.GetOwner(ctx)", "AttesterManager": "k.GetAttesterManager(ctx)", "Pauser": "k.GetPauser(ctx)", "TokenController": "k.GetTokenController(ctx)"}, p.instrPos(ret))
 		}
 	}
